@@ -148,7 +148,7 @@ pub fn gen_case(prop: &str, seed: u64) -> SdCase {
             0 => r.range(0, 120),
             _ => r.range(0, est_bytes),
         };
-        card.adversary = match r.below(if prop == "C14" { 6 } else { 14 }) {
+        card.adversary = match r.below(if prop == "C14" { 6 } else { 16 }) {
             0 | 1 => {
                 let nb = match r.below(4) {
                     0 => 1,
@@ -185,6 +185,8 @@ pub fn gen_case(prop: &str, seed: u64) -> SdCase {
             11 => Adversary::StuckHigh { block_no: r.below(4) as u32, from: *r.pick(&[0u16, 1, 100, 256, 500, 511, 512, 513]) },
             12 => Adversary::Cmd8BadEcho,
             13 => Adversary::Cmd55Illegal,
+            14 => Adversary::SwapCrc { block_no: r.below(4) as u32 },
+            15 => Adversary::AlwaysCrcError,
             _ => Adversary::SilentFrom(k),
         };
         if let Adversary::Cmd13Error { r1, r2, .. } = &mut card.adversary {
@@ -200,7 +202,7 @@ pub fn gen_case(prop: &str, seed: u64) -> SdCase {
             ops.insert(0, SdOp::Write { block: r.range(0, cap.saturating_sub(8)), n: if matches!(card.adversary, Adversary::Cmd13Error { .. }) { 1 } else { r.range(1, 4) as u8 }, seed: 7 });
             ops.insert(1, SdOp::Write { block: r.range(0, cap.saturating_sub(8)), n: 1, seed: 8 });
         }
-        if matches!(card.adversary, Adversary::FlipBits { .. } | Adversary::BadToken { .. } | Adversary::StuckHigh { .. }) {
+        if matches!(card.adversary, Adversary::FlipBits { .. } | Adversary::BadToken { .. } | Adversary::StuckHigh { .. } | Adversary::SwapCrc { .. }) {
             ops.insert(0, SdOp::Read { block: r.range(0, cap.saturating_sub(8)), n: r.range(1, 4) as u8 });
             ops.insert(1, SdOp::Read { block: r.range(0, cap.saturating_sub(8)), n: 1 });
         }
@@ -334,7 +336,7 @@ pub fn sd_eval(prop: &'static str, case: &SdCase) -> CaseOutcome {
     let crc_refused = case.card.cmd59_illegal && case.use_crc;
     let adversarial = case.card.adversary != Adversary::None || case.bus_fail_at.is_some() || crc_refused;
     let unreliable_answers = matches!(case.card.adversary, Adversary::GarbageFrom(_) | Adversary::BusyFrom(_));
-    let wire_altered0 = matches!(case.card.adversary, Adversary::StuckHigh { .. } | Adversary::FlipBits { .. } | Adversary::SilentFrom(_) | Adversary::BusyFrom(_) | Adversary::GarbageFrom(_));
+    let wire_altered0 = matches!(case.card.adversary, Adversary::SwapCrc { .. } | Adversary::StuckHigh { .. } | Adversary::FlipBits { .. } | Adversary::SilentFrom(_) | Adversary::BusyFrom(_) | Adversary::GarbageFrom(_));
     let mut h = 0xcbf29ce484222325u64;
     let mut failed_once = false;
     let mut init_failed_last = false;
@@ -456,7 +458,7 @@ pub fn sd_eval(prop: &'static str, case: &SdCase) -> CaseOutcome {
                     }
                     // with CRC on, Ok means every block's CRC matched: the data must be the card's
                     // without CRC nothing lets the driver notice bytes altered on the wire: nothing is demanded then
-                    let wire_altered = matches!(case.card.adversary, Adversary::StuckHigh { .. } | Adversary::FlipBits { .. } | Adversary::SilentFrom(_) | Adversary::BusyFrom(_) | Adversary::GarbageFrom(_));
+                    let wire_altered = matches!(case.card.adversary, Adversary::SwapCrc { .. } | Adversary::StuckHigh { .. } | Adversary::FlipBits { .. } | Adversary::SilentFrom(_) | Adversary::BusyFrom(_) | Adversary::GarbageFrom(_));
                     let judge_data = !unreliable_answers && (case.use_crc || !wire_altered) && !rg.card.borrow().corruption_undetectable;
                     if judge_data && in_range {
                         for (k, b) in bufs.iter().enumerate() {
@@ -584,6 +586,9 @@ pub fn sd_eval(prop: &'static str, case: &SdCase) -> CaseOutcome {
                         Adversary::StuckHigh { from, .. } if case.use_crc && !c.corruption_undetectable && matches!(op, SdOp::Read { .. } | SdOp::NumBlocks | SdOp::NumBytes) => {
                             push("C13", "crc-mismatch-accepted", &format!("{}:stuck-high", opk), format!("the data line read 0xFF from byte {} of a block through its CRC, CRC on, call returned Ok", from), i);
                         }
+                        Adversary::SwapCrc { .. } if case.use_crc && matches!(op, SdOp::Read { .. } | SdOp::NumBlocks | SdOp::NumBytes) => {
+                            push("C13", "crc-mismatch-accepted", &format!("{}:swapped-crc-bytes", opk), "the two CRC bytes of a block arrived exchanged (and differ), CRC on, call returned Ok".to_string(), i);
+                        }
                         Adversary::FlipBits { bits, .. } if case.use_crc && matches!(op, SdOp::Read { .. } | SdOp::NumBlocks | SdOp::NumBytes) => {
                             // was the corruption one the CRC can see? recompute over what was sent
                             let _ = (&c, bits, sent_before);
@@ -608,7 +613,7 @@ pub fn sd_eval(prop: &'static str, case: &SdCase) -> CaseOutcome {
             // a host that re-initialises after a failed call has no better option than CMD0, busy or not
             rg.card.borrow_mut().strict_cmd0 = false;
         }
-        let transient = matches!(case.card.adversary, Adversary::StuckHigh { .. } | Adversary::FlipBits { .. } | Adversary::BadToken { .. } | Adversary::RejectWrite { .. } | Adversary::Cmd13Error { .. }) && case.bus_fail_at.is_none();
+        let transient = matches!(case.card.adversary, Adversary::SwapCrc { .. } | Adversary::StuckHigh { .. } | Adversary::FlipBits { .. } | Adversary::BadToken { .. } | Adversary::RejectWrite { .. } | Adversary::Cmd13Error { .. }) && case.bus_fail_at.is_none();
         if matches!(res, CallRes::Err(_)) && adversarial && transient {
             // a one-off fault: the card is healthy and in a defined state; the calls that follow must be a
             // legal conversation and must work (judged by the ordinary oracles below and by the checker)
@@ -697,7 +702,7 @@ pub fn sd_eval(prop: &'static str, case: &SdCase) -> CaseOutcome {
         }
         out.dev_calls = c.bytes;
         out.sim_seconds = rg.ns.get() / 1_000_000_000;
-        for (k, n) in [("flip_bits", matches!(case.card.adversary, Adversary::FlipBits { .. })), ("silent", matches!(case.card.adversary, Adversary::SilentFrom(_))), ("busy_forever", matches!(case.card.adversary, Adversary::BusyFrom(_))), ("garbage", matches!(case.card.adversary, Adversary::GarbageFrom(_))), ("reject_write", matches!(case.card.adversary, Adversary::RejectWrite { .. })), ("cmd13_error", matches!(case.card.adversary, Adversary::Cmd13Error { .. })), ("bad_token", matches!(case.card.adversary, Adversary::BadToken { .. })), ("too_slow", matches!(case.card.adversary, Adversary::TooSlow)), ("stuck_high", matches!(case.card.adversary, Adversary::StuckHigh { .. })), ("cmd8_bad_echo", case.card.adversary == Adversary::Cmd8BadEcho), ("cmd55_illegal", case.card.adversary == Adversary::Cmd55Illegal)] {
+        for (k, n) in [("flip_bits", matches!(case.card.adversary, Adversary::FlipBits { .. })), ("silent", matches!(case.card.adversary, Adversary::SilentFrom(_))), ("busy_forever", matches!(case.card.adversary, Adversary::BusyFrom(_))), ("garbage", matches!(case.card.adversary, Adversary::GarbageFrom(_))), ("reject_write", matches!(case.card.adversary, Adversary::RejectWrite { .. })), ("cmd13_error", matches!(case.card.adversary, Adversary::Cmd13Error { .. })), ("bad_token", matches!(case.card.adversary, Adversary::BadToken { .. })), ("too_slow", matches!(case.card.adversary, Adversary::TooSlow)), ("stuck_high", matches!(case.card.adversary, Adversary::StuckHigh { .. })), ("cmd8_bad_echo", case.card.adversary == Adversary::Cmd8BadEcho), ("cmd55_illegal", case.card.adversary == Adversary::Cmd55Illegal), ("swapped_crc_bytes", matches!(case.card.adversary, Adversary::SwapCrc { .. })), ("every_command_crc_error", case.card.adversary == Adversary::AlwaysCrcError)] {
             if n && c.adversary_fired > 0 {
                 *out.faults.entry(k.to_string()).or_insert(0) += 1;
             }
